@@ -262,6 +262,7 @@ func (r *run36) run(bi int, beh []map[string]any, res *vh.Result) bool {
 		mode := sget(step, "mode")
 		mo, mcb := model36(st)
 		pendingDrift := ""
+		fireTimed, fireOK := false, true
 		dlBefore := dl
 		before := r.frames()
 		wasClosed, _ := closedCode()
@@ -270,6 +271,22 @@ func (r *run36) run(bi int, beh []map[string]any, res *vh.Result) bool {
 		case "Tick":
 			tick++
 			time.Sleep(time.Until(t0.Add(time.Duration(tick) * time.Second)))
+			// A real scheduler fires a timer when its duration has elapsed. Where the only real-time deadline is the
+			// connection's expiry (no pings), a timer the code armed for an EARLIER instant than the model's deadline is
+			// fired now, like any scheduler would: closing before the deadline then shows as such.
+			if a := r.sch.active("c"); !c.Ping && len(a) == 1 && a[0].d < time.Hour && time.Since(a[0].at.Add(a[0].d)) > 200*time.Millisecond {
+				mt := vh.Map(st["tmr"])
+				if !(vh.Str(mt["op"]) == "expire" && vh.Int(mt["at"]) <= vh.Int(st["now"])) && timingOK() {
+					nowU := time.Now().Unix()
+					r.setMode("extend")
+					r.sch.fire("c")
+					time.Sleep(20 * time.Millisecond)
+					if cl, code := closedCode(); cl && code == codeExpired && (dl == inf36 || nowU < dl) {
+						steps = append(steps, map[string]any{"act": fmt.Sprintf("the timer armed for %s ran out and was fired", a[0].d)})
+						violate("expire:closed-before-deadline:"+lastRefresh, fmt.Sprintf("a timer armed for %s closed the connection as expired although its deadline (last refresh: %s) is %s", a[0].d, lastRefresh, rel(dl, nowU)))
+					}
+				}
+			}
 			continue
 		case "Connect":
 			r.setMode(mode)
@@ -334,11 +351,49 @@ func (r *run36) run(bi int, beh []map[string]any, res *vh.Result) bool {
 			r.setMode(mode)
 			seq := r.sch.lastSeq()
 			if _, n, ok := r.sch.fire("c"); !ok {
-				drift(fmt.Sprintf("expected exactly one armed timer (%s), found %d", sget(step, "op"), n))
+				op := sget(step, "op")
+				switch {
+				case n == 0 && op == "expire" && mode == "-" && dl != inf36 && nowUnix >= dl:
+					violate("expire:not-closed:no-timer", fmt.Sprintf("the connection is %d s past its deadline (last refresh: %s) and no timer is armed that would close it", nowUnix-dl, lastRefresh))
+				case n == 0 && op == "pong" && owed:
+					violate("no-pong:not-closed:no-timer", "a ping is unanswered and no timer is armed that would check the pong")
+				default:
+					drift(fmt.Sprintf("expected exactly one armed timer (%s), found %d", op, n))
+				}
 				continue
 			}
+			fireTimed, fireOK = true, timingOK()
+			if sget(step, "op") == "presence" {
+				// a tick that finds the previous tick's goroutine still finishing is skipped by the code (it only
+				// re-arms): fire again, like the next period would
+				for try := 0; try < 5; try++ {
+					deadline := time.Now().Add(150 * time.Millisecond)
+					for len(r.cbLog()) < len(mcb) && time.Now().Before(deadline) {
+						time.Sleep(200 * time.Microsecond)
+					}
+					if len(r.cbLog()) >= len(mcb) || !r.sch.waitArmed("c", seq, 0) {
+						break
+					}
+					if cl, _ := t.Closed(); cl {
+						break
+					}
+					seq = r.sch.lastSeq()
+					if _, _, ok := r.sch.fire("c"); !ok {
+						break
+					}
+				}
+			}
 			if vh.Str(vh.Map(st["tmr"])["op"]) != "none" && len(vh.List(st["closing"])) == 0 {
-				if !r.sch.waitArmed("c", seq, syncWait) {
+				armed := false
+				for deadline := time.Now().Add(syncWait); time.Now().Before(deadline); time.Sleep(200 * time.Microsecond) {
+					if armed = r.sch.waitArmed("c", seq, 0); armed {
+						break
+					}
+					if cl, _ := t.Closed(); cl {
+						break
+					}
+				}
+				if !armed {
 					// judged by the monitors first: the connection may have been closed instead
 					pendingDrift = fmt.Sprintf("no timer armed after firing %s", sget(step, "op"))
 				}
@@ -349,7 +404,7 @@ func (r *run36) run(bi int, beh []map[string]any, res *vh.Result) bool {
 			drift("unknown action " + act)
 			continue
 		}
-		if !timingOK() {
+		if (fireTimed && !fireOK) || (!fireTimed && !timingOK()) {
 			skipped36.Add(1)
 			return false
 		}
@@ -545,5 +600,32 @@ func c36(in json.RawMessage, res *vh.Result) error {
 	}
 	wg.Wait()
 	res.Extra["timing_retries"] = skipped36.Load()
+	return nil
+}
+
+// c36probe tells which variant of Client.Refresh(ExpireAt = 0) the tree under test has: whether it clears the
+// expiry deadline of the multiplexed timer (the simulated behaviours are generated for that variant; the C36
+// monitors are the same for both).
+func c36probe(_ json.RawMessage, res *vh.Result) error {
+	r, err := newRun36(cfg36{E: 100})
+	if err != nil {
+		return err
+	}
+	defer r.env.Close()
+	r.sch.setOwner("c")
+	conn, err := r.env.NewConn("", centrifuge.ProtocolTypeJSON)
+	if err != nil {
+		return err
+	}
+	defer conn.Cancel()
+	r.setMode("ok")
+	if conn.Connect() == nil {
+		return fmt.Errorf("probe: connect failed")
+	}
+	_ = conn.Client.Refresh(centrifuge.WithRefreshExpireAt(0))
+	conn.Barrier(syncWait)
+	a := r.sch.active("c")
+	res.Extra["server_zero_rearms"] = len(a) == 1 && a[0].d > time.Hour
+	res.Done(1, 1)
 	return nil
 }
